@@ -259,3 +259,131 @@ class DictRoundTrip(Contract):
     def post_raise(self, I, pre, sig):
         g = pre.ghost
         I.path.prove(z3.BoolVal(False), f"{self.qual}:C13:C16:from_dict(to_dict(s)) does not raise [{g['shape']['cls']}, {'flat' if g['shape']['flat'] else 'nested'}: {sig.exc}]", assume_after=False)
+
+
+# ------------------------------------------------------------------------------------------ histories
+SERIES = ["log_norm_ratio", "log_norm_ratio_var", "beta", "ess", "ess_target", "eff_target", "mcmc_autocorr", "mcmc_acceptance"]
+
+
+class SamplesSaveModel(Contract):
+    """caller-side model used by the history contract: the sample set is stored under `path` (its own round trip is BaseSamples.from_dict / to_numpy)"""
+    qual = "samples:BaseSamples.save"
+    doc = "stores the sample set under `path` of the file (nested groups are created as needed)"
+
+    def model(self, I, info, bound, args, kwargs, node):
+        from contracts.io import group_path
+        h5, path = args[0], (args[1] if len(args) > 1 else kwargs.get("path", Str("samples")))
+        root = h5.f["root"] if h5.cls == "H5File" else h5
+        g = group_path(I, root, path.v, create=True, node=node)
+        g.f["stored_samples"] = bound
+        return NONE
+
+    def usable_at_call(self, I, q):
+        return I.path.ghost.get("history_contract", False)
+
+
+class SamplesLoadModel(Contract):
+    qual = "samples:BaseSamples.load"
+    doc = "returns the sample set stored under `path` (KeyError if there is none)"
+
+    def model(self, I, info, bound, args, kwargs, node):
+        from contracts.io import group_path
+        h5, path = args[0], (args[1] if len(args) > 1 else kwargs.get("path", Str("samples")))
+        root = h5.f["root"] if h5.cls == "H5File" else h5
+        g = group_path(I, root, path.v, create=False, node=node)
+        if "stored_samples" not in g.f:
+            I.implicit_exception(False, "KeyError", node)
+            raise PathEnd()
+        return g.f["stored_samples"]
+
+    def usable_at_call(self, I, q):
+        return I.path.ghost.get("history_contract", False)
+
+
+class HistorySaveLoad(Contract):
+    qual = "history:SMCHistory.save"
+    properties = ("C13",)
+    doc = ("SMCHistory.load(save(h)) has every series with the same entries and the stored populations in the same order, for every number of stored "
+           "populations up to 12 (both sides of the change from one-digit to two-digit group names); the real save, load and HDF5 codec run on both sides")
+
+    def shapes(self):
+        return [{"n": n, "series": k} for n in (0, 1, 2, 10, 11, 12) for k in (0, 2)]
+
+    def setup(self, I, shape):
+        n, k = shape["n"], shape["series"]
+        I.path.ghost["history_contract"] = True
+        pops = [Obj("SMCSamples", {"tag": Str(f"population_{i}")}) for i in range(n)]
+        f = {nm: PyList([R(z3.Real(f"{nm}_{i}")) for i in range(k)]) for nm in SERIES}
+        f["sample_history"] = PyList(list(pops))
+        h = Obj("SMCHistory", f)
+        root = mk_group("/")
+        h5 = Obj("H5File", {"root": root, "mode": Str("a"), "closed": B(False), "path": Str("f.h5")})
+        return Pre(h, [h5], {"path": Str("smc_history")}, ghost={"h": h, "h5": h5, "pops": pops, "shape": shape, "series0": {nm: list(f[nm].items) for nm in SERIES}})
+
+    def post(self, I, pre, r):
+        p, g = I.path, pre.ghost
+        q = self.qual
+        sh = g["shape"]
+        tag = f"[{sh['n']} stored populations, series of length {sh['series']}]"
+        load = I.front.get("history:SMCHistory.load")
+        I.depth += 1
+        try:
+            back = I.call_repo(load, ClassRef("SMCHistory"), [g["h5"]], {"path": Str("smc_history")}, None, force_inline=True)
+        finally:
+            I.depth -= 1
+        ok = isinstance(back, Obj) and back.cls == "SMCHistory"
+        p.prove(z3.BoolVal(ok), f"{q}:C13:the history reloads as an SMCHistory {tag}")
+        if not ok:
+            return
+        got = back.f.get("sample_history")
+        # save() works on a deep copy of the history: the reloaded populations are (copies of) the recorded ones, identified by their tag
+        same = isinstance(got, PyList) and len(got.items) == len(g["pops"]) and all(isinstance(a, Obj) and isinstance(a.f.get("tag"), Str) and a.f["tag"].v == b.f["tag"].v
+                                                                                  for a, b in zip(got.items, g["pops"]))
+        p.prove(z3.BoolVal(same), f"{q}:C13:the stored populations reload in the order they were recorded {tag}")
+        for nm in SERIES:
+            v = back.f.get(nm)
+            items = list(I.iterate(v, None)) if v is not None and not isinstance(v, NoneV) else None
+            want = g["series0"][nm]
+            good = items is not None and len(items) == len(want)
+            p.prove(z3.And([z3.BoolVal(good)] + ([I.equal(a, b) for a, b in zip(items, want)] if good else [])), f"{q}:C13:series `{nm}` reloads with the same entries {tag}")
+        # the live history is not disturbed by saving it
+        cur = g["h"].f.get("sample_history")
+        p.prove(z3.BoolVal(isinstance(cur, PyList) and len(cur.items) == len(g["pops"]) and all(a is b for a, b in zip(cur.items, g["pops"]))),
+                f"{q}:C13:C18:saving leaves the live history's stored populations in place {tag}")
+
+
+class FlowHistorySaveLoad(Contract):
+    qual = "history:History.save"
+    properties = ("C13",)
+    doc = "FlowHistory.load(save(h)) has both loss series with the same entries (the real save, load and HDF5 codec run on both sides)"
+
+    def shapes(self):
+        return [{"k": k} for k in (0, 1, 3)]
+
+    def setup(self, I, shape):
+        k = shape["k"]
+        f = {"training_loss": PyList([R(z3.Real(f"train_{i}")) for i in range(k)]), "validation_loss": PyList([R(z3.Real(f"val_{i}")) for i in range(k)])}
+        h = Obj("FlowHistory", f)
+        root = mk_group("/")
+        h5 = Obj("H5File", {"root": root, "mode": Str("a"), "closed": B(False), "path": Str("f.h5")})
+        return Pre(h, [h5], {"path": Str("flow_history")}, ghost={"h5": h5, "shape": shape, "series0": {nm: list(v.items) for nm, v in f.items()}})
+
+    def post(self, I, pre, r):
+        p, g = I.path, pre.ghost
+        q = self.qual
+        tag = f"[loss series of length {g['shape']['k']}]"
+        load = I.front.get("history:History.load")
+        I.depth += 1
+        try:
+            back = I.call_repo(load, ClassRef("FlowHistory"), [g["h5"]], {"path": Str("flow_history")}, None, force_inline=True)
+        finally:
+            I.depth -= 1
+        ok = isinstance(back, Obj) and back.cls == "FlowHistory"
+        p.prove(z3.BoolVal(ok), f"{q}:C13:the history reloads as a FlowHistory {tag}")
+        if not ok:
+            return
+        for nm, want in g["series0"].items():
+            v = back.f.get(nm)
+            items = list(I.iterate(v, None)) if v is not None and not isinstance(v, NoneV) else None
+            good = items is not None and len(items) == len(want)
+            p.prove(z3.And([z3.BoolVal(good)] + ([I.equal(a, b) for a, b in zip(items, want)] if good else [])), f"{q}:C13:series `{nm}` reloads with the same entries {tag}")
